@@ -327,8 +327,14 @@ def gen_cases(rng, tier):
             names = list(range(0, n)) if with_index else list(range(1, n + 1))
             if with_index and n == 0:
                 continue
+            all_faults = faults_for(len(names))
             for perm in itertools.permutations(names):
-                for flt in faults_for(len(names)):
+                faults = all_faults
+                if n == 5 and tier == "quick":
+                    # quick tier: 5 files = every permutation x 4 fault points drawn at random
+                    # (every fault point x every permutation in the thorough tier)
+                    faults = rng.sample(all_faults, 4)
+                for flt in faults:
                     second = list(names)
                     rng.shuffle(second)
                     cases.append(dict(images={1: names}, tag="exh1",
@@ -480,11 +486,11 @@ def run(ctx, V):
     return dict(evaluations=len(cases), distinct_nontrivial=len(nontrivial),
                 rule="real PipelineManager.publish + refresh_impl on scratch work dirs: (a) one image with 0-5 files, with and "
                      "without index.wtml, every listing permutation x every fault point (before/during/after each put_item, "
-                     "and none), each followed by a fault-free re-run under a random second listing; (b) two consecutive faulted "
+                     "and none; in the quick tier 5-file listings get 4 random fault points per permutation), each followed by a fault-free re-run under a random second listing; (b) two consecutive faulted "
                      "runs + a fault-free one, exhaustive for 2 files (and 3 files in the thorough tier; sampled in quick); "
                      "(c) random histories of 1-4 runs over 1-3 images with up to 10 files and random outer orders; "
                      "non-trivial = distinct scenario with at least one fault and an image of >= 2 files",
-                exhaustive=True, exhaustive_single_run_cases=n_exh1 - 1, exhaustive_sequence_cases=n_exh - n_exh1,
+                exhaustive=(tier == "thorough"), exhaustive_upto_files=(5 if tier == "thorough" else 4), exhaustive_single_run_cases=n_exh1 - 1, exhaustive_sequence_cases=n_exh - n_exh1,
                 implementation_matches=variant, disagreements_with_model_as_found=len(bad_found),
                 disagreements_with_repaired_model=len(bad_atomic), predicate_failures=n_pred_fail,
                 cases_hitting_rerun_defect=len(f_hits), input_histogram=hist, samples=samples)
